@@ -65,6 +65,11 @@ pub fn text_of(spec: &Spec, toks: &[usize], splice: Option<usize>) -> (String, u
     (s, at)
 }
 
+pub fn run_digest(s: &dyn Sut, toks: &[usize], shape: u8, plan: &Plan, splice: Option<usize>, r: &Run) -> u64 {
+    let text = format!("{}|{}|{:?}|{}|{:?}|{:?}|{:?}|{:?}", s.info().variant, s.info().start, toks, shape, plan, splice, r.out, r.log);
+    simcore::digest(text.as_bytes())
+}
+
 pub fn run_case(w: &World, s: &dyn Sut, toks: &[usize], shape: u8, plan: Plan, splice: Option<usize>) -> Run {
     let ctx = Ctx::new(plan);
     let var = w.variant(s);
@@ -119,6 +124,8 @@ pub struct Stats {
     pub fault_in_inlined_action: u64,
     pub fault_at_start_reduction: u64,
     pub shapes: BTreeSet<String>,
+    /// order-independent digest of every (case, result, history) seen: determinism self-test
+    pub digest: u64,
 }
 
 impl Stats {
@@ -136,6 +143,7 @@ impl Stats {
         self.fault_in_inlined_action += o.fault_in_inlined_action;
         self.fault_at_start_reduction += o.fault_at_start_reduction;
         self.shapes.extend(o.shapes.iter().cloned());
+        self.digest ^= o.digest;
     }
 }
 
@@ -197,6 +205,7 @@ pub fn check_c17(w: &World, s: &dyn Sut, toks: &[usize], shape: u8, rng: &mut Rn
     let mut verify = |plan: Plan, cut: usize, fault_ev: Ev, id: u32, what: &str, where_: &str, st: &mut Stats| {
         let r = run_case(w, s, toks, shape, plan.clone(), None);
         st.faulted_parses += 1;
+        st.digest ^= run_digest(s, toks, shape, &plan, None, &r);
         let mut expected: Vec<Ev> = base.log[..cut].to_vec();
         expected.push(fault_ev);
         let want = Outcome::User(id);
@@ -286,6 +295,7 @@ pub fn check_c17(w: &World, s: &dyn Sut, toks: &[usize], shape: u8, rng: &mut Rn
             let (_, at) = text_of(spec, toks, Some(b));
             let r = run_case(w, s, toks, shape, Plan::default(), Some(b));
             st.faulted_parses += 1;
+            st.digest ^= run_digest(s, toks, shape, &Plan::default(), Some(b), &r);
             st.invalid_token_faults += 1;
             // if the fault-free parse already failed at a token that ends before the
             // splice, the lexer is never asked for the spliced position
@@ -333,6 +343,7 @@ pub fn check_c04(w: &World, s: &dyn Sut, sentence: &[usize], shape: u8, st: &mut
         let toks = &sentence[..k];
         let r = run_case(w, s, toks, shape, Plan::default(), None);
         st.truncations += 1;
+        st.digest ^= run_digest(s, toks, shape, &Plan::default(), None, &r).rotate_left(7);
         let want_loc: i64 = if var.builtin {
             text_of(spec, toks, None).0.len() as i64
         } else if var.loc == 2 {
